@@ -25,14 +25,16 @@ Rec == ndJsonDeserialize(IOEnv.TRACE)
 
 VARIABLES b,    \* specification book (reference engine, BookOps.tla)
           ib,   \* implementation-shaped book (BookImpl.tla) driven in lock-step
+          istale, \* the implementation-shaped model no longer describes the code's internals (see ImplClauses)
           l,    \* index of the next event
           bad   \* "" or the name of the first failed clause (kept so that it can be reported)
 
-tvars == <<b, ib, l, bad>>
+tvars == <<b, ib, istale, l, bad>>
 
 TInit ==
   /\ b = NewBook(0, 1, TRUE, 1)
   /\ ib = NewImpl(0, 1, TRUE, 1)
+  /\ istale = FALSE
   /\ l = 1
   /\ bad = ""
 
@@ -107,7 +109,12 @@ StepClauses(old, new, lbl) ==
      <<"C02_NotCrossed", C02_NotCrossed(new)>>,
      <<"C03_Counter", C03_Counter(new)>> >>
 
-\* the implementation-shaped model, bound to the code through the keys the JSON snapshot shows
+\* The implementation-shaped model, bound to the code through the keys the JSON snapshot shows.
+\* These clauses compare INTERNALS (the key an entry is stored under), about which the listed properties
+\* say nothing: a correct re-implementation may key its entries differently.  A failure here is therefore
+\* never a property violation - it only means that BookImpl.tla (and with it the refinement evidence of
+\* BookImplMC) no longer describes this code.  It is recorded in register 2, reported once as
+\* IMPL-DIVERGED, and the implementation clauses are switched off for the rest of the trace.
 ChangedKeys(oi, ni) == {i \in IIds(ni) : i >= Len(oi.entries) \/ E(ni, i).key # E(oi, i).key}
 ImplClauses(oi, ni, new, e) ==
   << <<"impl_refines_reference", Matches(ni, new)>>,
@@ -134,6 +141,7 @@ Reset ==
      /\ FirstFalse(DeltaClauses(nb, nb, e)) = ""
      /\ b' = nb
      /\ ib' = NewImpl(e.t0, e.tick, e.trading, e.levels)
+     /\ istale' = istale
   /\ l' = l + 1
   /\ bad' = bad
 
@@ -156,14 +164,15 @@ Call ==
           /\ bad' = "MISMATCH:" \o d
           /\ b' = new
           /\ l' = l
+          /\ istale' = istale
         ELSE
           LET c == FirstFalse(StepClauses(old, new, lbl))
               a == IF e.audit THEN FirstFalse(AuditClauses(new)) ELSE ""
-              i == FirstFalse(ImplClauses(ib, ni, new, e))
+              i == IF istale THEN "" ELSE FirstFalse(ImplClauses(ib, ni, new, e))
           IN
           /\ b' = new
-          /\ bad' = IF c # "" THEN "CLAUSE:" \o c ELSE IF a # "" THEN "CLAUSE:" \o a
-                     ELSE IF i # "" THEN "IMPL:" \o i ELSE ""
+          /\ bad' = IF c # "" THEN "CLAUSE:" \o c ELSE IF a # "" THEN "CLAUSE:" \o a ELSE ""
+          /\ istale' = (istale \/ (bad' = "" /\ i # "" /\ TLCSet(2, <<l, i>>)))
           /\ l' = IF bad' = "" THEN l + 1 ELSE l
 
 TNext == Reset \/ Call
@@ -171,12 +180,13 @@ TSpec == TInit /\ [][TNext]_tvars
 
 \* ---- acceptance ----------------------------------------------------------
 \* register 1 holds the highest event index reached (run with -workers 1)
-ASSUME TLCSet(1, 0)
+ASSUME TLCSet(1, 0) /\ TLCSet(2, <<0, "">>)
 Track == TLCSet(1, MaxOf(TLCGet(1), l))
 Accepted ==
-  IF TLCGet(1) = Len(Rec) + 1
-  THEN PrintT(<<"ACCEPTED", Len(Rec)>>)
-  ELSE PrintT(<<"REJECTED", TLCGet(1)>>) /\ FALSE
+  /\ (TLCGet(2)[1] = 0 \/ PrintT(<<"IMPL-DIVERGED", ToJson([at |-> TLCGet(2)[1], why |-> TLCGet(2)[2]])>>))
+  /\ IF TLCGet(1) = Len(Rec) + 1
+     THEN PrintT(<<"ACCEPTED", Len(Rec)>>)
+     ELSE PrintT(<<"REJECTED", TLCGet(1)>>) /\ FALSE
 
 \* printed when a trace stops: the event, the reason and what the specification expected
 Report ==
